@@ -7,7 +7,7 @@
      utils.Txn validated by C17 (Utils/Txn.v): same steps, same order, same rollback flag,
      same result, for every outcome vector. *)
 From Coq Require Import List Bool Arith Lia.
-From Verif Require Import Base.Effects Utils.Txn.
+From Verif Require Import Base.Effects Utils.Txn Calcium.World.
 Import ListNotations.
 
 Section Generic.
@@ -16,9 +16,12 @@ Section Generic.
   Variable key_of : call -> key.
   Variable exec : world -> call -> world * reply.
   Variable fail_reply : call -> reply.
+  Variable faultable : call -> bool.
+  (* a call that cannot be hit by a fault has a key no fault address matches *)
+  Hypothesis unfaultable_key : forall c k, faultable c = false -> key_eqb (key_of c) k = false.
 
   Notation prog := (prog call reply).
-  Notation runk := (runk call reply world exec fail_reply).
+  Notation runk := (runk call reply world exec fail_reply faultable).
   Notation run := (run call reply world key key_eqb key_of exec fail_reply).
 
   Lemma runk_bind : forall A B (p : prog A) (f : A -> prog B) w k,
@@ -27,9 +30,11 @@ Section Generic.
   Proof.
     induction p as [a|c q IH]; intros f w k; simpl.
     - reflexivity.
-    - destruct k as [[|j]|].
-      + apply IH.
-      + destruct (exec w c) as [w' r]. apply IH.
+    - destruct (faultable c).
+      + destruct k as [[|j]|].
+        * apply IH.
+        * destruct (exec w c) as [w' r]. apply IH.
+        * destruct (exec w c) as [w' r]. apply IH.
       + destruct (exec w c) as [w' r]. apply IH.
   Qed.
 
@@ -61,24 +66,41 @@ Section Generic.
     - exists None. split; [reflexivity|]. exists s, a, None. simpl. auto.
     - cbn [Effects.run].
       destruct (decide call world key key_eqb key_of s c) as [[d seen] hit] eqn:Hd.
-      destruct (decide_cases _ _ _ _ _ Hd) as [[Hp Hh]|[f [Hfs [Hw [Hh Hh']]]]].
-      + subst d. destruct (exec (i_world s) c) as [w' r] eqn:He.
-        destruct (IH r (mkIst w' (i_fault s) seen hit ((c, false) :: i_trace s))) as [k1 [Hk1 [s' [a [k' [Hr Hk]]]]]].
+      destruct (faultable c) eqn:Hfc.
+      + destruct (decide_cases _ _ _ _ _ Hd) as [[Hp Hh]|[f [Hfs [Hw [Hh Hh']]]]].
+        * subst d. destruct (exec (i_world s) c) as [w' r] eqn:He.
+          destruct (IH r (mkIst w' (i_fault s) seen hit ((c, false) :: i_trace s))) as [k1 [Hk1 [s' [a [k' [Hr Hk]]]]]].
+          { exact Hf. }
+          cbn [i_world i_hit] in Hk1, Hk.
+          exists (match k1 with None => None | Some j => Some (S j) end). split.
+          -- intros Ht. rewrite (Hk1 (Hh Ht)). reflexivity.
+          -- exists s', a, k'. split; [exact Hr|].
+             destruct k1 as [j|]; cbn [Effects.runk]; rewrite Hfc, He; exact Hk.
+        * rewrite (Hf f Hfs) in Hw. subst d.
+          destruct (IH (fail_reply c) (mkIst (i_world s) (i_fault s) seen hit ((c, true) :: i_trace s))) as [k1 [Hk1 [s' [a [k' [Hr Hk]]]]]].
+          { exact Hf. }
+          cbn [i_world i_hit] in Hk1, Hk. rewrite (Hk1 Hh') in Hk.
+          exists (Some 0). split.
+          -- rewrite Hh. discriminate.
+          -- exists s', a, k'. split; [exact Hr|]. cbn [Effects.runk]. rewrite Hfc. exact Hk.
+      + (* not a fault position: no address matches it, the index is not consumed *)
+        assert (Hdd : d = Proceed /\ seen = i_seen s /\ hit = i_hit s).
+        { unfold decide in Hd. destruct (i_fault s) as [f|].
+          - rewrite (unfaultable_key c (f_key f) Hfc) in Hd. inversion Hd; auto.
+          - inversion Hd; auto. }
+        destruct Hdd as [-> [-> ->]].
+        destruct (exec (i_world s) c) as [w' r] eqn:He.
+        destruct (IH r (mkIst w' (i_fault s) (i_seen s) (i_hit s) ((c, false) :: i_trace s))) as [k1 [Hk1 [s' [a [k' [Hr Hk]]]]]].
         { exact Hf. }
         cbn [i_world i_hit] in Hk1, Hk.
-        exists (match k1 with None => None | Some j => Some (S j) end). split.
-        * intros Ht. rewrite (Hk1 (Hh Ht)). reflexivity.
-        * exists s', a, k'. split; [exact Hr|].
-          destruct k1 as [j|]; cbn [Effects.runk]; rewrite He; exact Hk.
-      + rewrite (Hf f Hfs) in Hw. subst d.
-        destruct (IH (fail_reply c) (mkIst (i_world s) (i_fault s) seen hit ((c, true) :: i_trace s))) as [k1 [Hk1 [s' [a [k' [Hr Hk]]]]]].
-        { exact Hf. }
-        cbn [i_world i_hit] in Hk1, Hk. rewrite (Hk1 Hh') in Hk.
-        exists (Some 0). split.
-        * rewrite Hh. discriminate.
-        * exists s', a, k'. split; [exact Hr|]. cbn [Effects.runk]. exact Hk.
+        exists k1. split; [exact Hk1|]. exists s', a, k'. split; [exact Hr|].
+        cbn [Effects.runk]. rewrite Hfc, He. exact Hk.
   Qed.
 End Generic.
+
+(* in the calcium instance the only unfaultable call is the channel send, whose key no address matches *)
+Lemma unfaultable_has_no_key : forall (c : World.call) (k : World.key), World.is_faultable c = false -> World.key_eqb (World.key_of c) k = false.
+Proof. intros c k H. destruct c; try discriminate. reflexivity. Qed.
 
 (* ---- the link to C17 ----
    Steps are abstracted to their scripted outcome exactly as in Utils/Txn.v: a step is a
@@ -101,7 +123,7 @@ Section TxnLink.
   (* same steps in the same order with the same rollback flag, same result *)
   Theorem txn_matches_C17 : forall cnd thn rb cp ca,
     cnd <> Absent ->
-    let '(w, _, r) := runk tcall unit tworld texec (fun _ => tt) (txn_of cnd thn rb) [] None in
+    let '(w, _, r) := runk tcall unit tworld texec (fun _ => tt) (fun _ => true) (txn_of cnd thn rb) [] None in
     w = map (fun e => (who e, flag e)) (fst (Txn.txn cnd thn rb cp ca)) /\
     tresult r cnd = snd (Txn.txn cnd thn rb cp ca).
   Proof.
@@ -115,7 +137,7 @@ Section TxnLink.
 
   Theorem pcr_matches_C17 : forall prep com rb cp ca,
     prep <> Absent -> com <> Absent -> rb <> Absent ->
-    let '(w, _, r) := runk tcall unit tworld texec (fun _ => tt) (pcr_of prep com rb) [] None in
+    let '(w, _, r) := runk tcall unit tworld texec (fun _ => tt) (fun _ => true) (pcr_of prep com rb) [] None in
     w = map (fun e => (who e, flag e)) (fst (Txn.pcr prep com rb cp ca)) /\
     tresult r prep = snd (Txn.pcr prep com rb cp ca).
   Proof.
